@@ -218,7 +218,7 @@ class Fn:
         return self.names.get(l, '_%d' % l)
 
     # ---- slicing ----
-    def slice(self, op_or_place, through_calls=True, max_nodes=4000, stop_at_calls=()):
+    def slice(self, op_or_place, through_calls=True, max_nodes=4000, stop_at_calls=(), stop_re=None):
         """Flow-insensitive backward slice.  Returns a Slice with:
         consts: set of (ty, val); params: set of arg locals reached; fields: set of tuples
         (root_local, tuple(field names)) for every place read on the way; calls: set of callee names
@@ -291,7 +291,7 @@ class Fn:
                     name = self.callee_name(x)
                     sl.calls.add(name)
                     sl.call_terms.append((bi, x))
-                    if through_calls and name not in stop_at_calls:
+                    if through_calls and name not in stop_at_calls and not (stop_re is not None and re.search(stop_re, name)):
                         for a in x['args']:
                             push_op(a)
         sl.locals = seen
